@@ -1,6 +1,7 @@
 package props
 
 import (
+	"encoding/json"
 	"fmt"
 	"strings"
 	"sync"
@@ -55,3 +56,8 @@ func joinMax(l []string, n int) string {
 }
 
 var _ = hx.Root
+
+func jsonOf(v interface{}) string {
+	b, _ := json.Marshal(v)
+	return string(b)
+}
